@@ -115,6 +115,7 @@ def python_job(prog: str, seed: int = 0) -> JobOut:
     try:
         got_np = real_numpy_run()
         bad = [k for k in want if np.asarray(got_np[k]).shape != np.asarray(want[k]).shape
+               or (np.asarray(got_np[k]).dtype != np.asarray(want[k]).dtype and dag[k].dtype == np.asarray(want[k]).dtype)
                or not num_close(got_np[k], want[k], scale=max(1.0, float(np.max(np.abs(want[k]))) if np.asarray(want[k]).size and np.asarray(want[k]).dtype.kind in "fc" else 1.0))]
         sides.append(Side(f"{prog}/generated-source-with-real-numpy-equals-numpy", not bad, {"differing outputs": bad}))
     except Exception as e:  # noqa: BLE001
@@ -186,7 +187,7 @@ def python_job(prog: str, seed: int = 0) -> JobOut:
 
 
 def jobs(tier: str, seed: int):
-    progs = C.corpus(tier, seed)
+    progs = C.corpus(tier, seed, exclude=("csr", "loopycall"))     # outside C14's stated fragment
     J = [Job(MOD, "python_job", {"prog": P.name, "seed": seed}, jid=P.name, hard_timeout=900) for P in progs]
     meta = {
         "programs": len(progs),
